@@ -411,6 +411,8 @@ def term_to_py(model, ty, t, strs):
         except Exception:
             return 0.0
     if k == 'bytes':
+        if ty == T.BYTEARRAY:
+            return {'__bytearray__': seq_to_bytes(model, t).hex()}
         return {'__bytes__': seq_to_bytes(model, t).hex()}
     if k == 'str':
         key = str(t)
